@@ -414,7 +414,7 @@ func checkC04(c *ev.Ctx) {
 			jobs = append(jobs, job{s, "flip", bit, 0})
 		}
 		for off := 0; off < len(s.B); off++ {
-			jobs = append(jobs, job{s, "burst", off, 0}, job{s, "delete", off, 0}, job{s, "insert", off, 0})
+			jobs = append(jobs, job{s, "burst", off, 0}, job{s, "delete", off, 0}, job{s, "insert", off, 0}, job{s, "truncate", off, 0})
 		}
 		jobs = append(jobs, job{s, "insert", len(s.B), 0})
 		// deletion of whole structural ranges (between any two boundaries)
@@ -474,6 +474,8 @@ func checkC04(c *ev.Ctx) {
 			}
 		case "delete":
 			mod = append(append([]byte(nil), s.B[:j.arg]...), s.B[j.arg+1:]...)
+		case "truncate": // deletion of everything from this offset on
+			mod = append([]byte(nil), s.B[:j.arg]...)
 		case "delrange":
 			mod = append(append([]byte(nil), s.B[:j.arg]...), s.B[j.bi:]...)
 		case "insert":
